@@ -26,27 +26,21 @@ def rule_r1(chk, db):
     if len(d) != 1:
         raise AnchorMissing("v2 dispatcher: %d candidates" % len(d))
     x = d[0]
-    # presigned verifier under has("Signature") true; header verifier under AuthorizationV2::parse Ok
+    # presigned verifier under "Signature parameter present"; header verifier under "AuthorizationV2::parse succeeded" (any form of the tests)
+    sig_edges = sigcore.presence_edges(db, x, ("qs", "Signature"))
+    parse_edges = sigcore.presence_edges(db, x, ("parse-ok", "AuthorizationV2"))
     for bi, t in x.calls():
         nm = short(callee_def(t))
         if nm == "v2_check_presigned_url":
-            f = guards.dominating_facts(x, bi)
-            okp = False
-            for y in f:
-                if y[0] == "call" and y[1].endswith("OrderedQs::has") and y[2] is True and paths.str_args(x, x.blocks[y[3]]["term"]) == ["Signature"]:
-                    okp = True
-            chk.verdict(okp, "R1", "presigned-iff-Signature", x.loc(bi), "the V2 presigned verifier is not selected by the presence of the `Signature` parameter")
+            chk.verdict(bool(sig_edges) and flow.must_pass(x, [bi], sig_edges), "R1", "presigned-iff-Signature", x.loc(bi),
+                        "the V2 presigned verifier is not selected by the presence of the `Signature` parameter")
         if nm == "v2_check_header_auth":
-            f = guards.dominating_facts(x, bi)
-            okh = any(y[0] == "enum" and "AuthorizationV2" in y[1] and y[2] == frozenset(["Ok"]) for y in f)
-            chk.verdict(okh, "R1", "header-iff-AWS-scheme", x.loc(bi), "the V2 header verifier is not selected by a parsable `AWS ak:sig` Authorization header")
+            chk.verdict(bool(parse_edges) and flow.must_pass(x, [bi], parse_edges), "R1", "header-iff-AWS-scheme", x.loc(bi),
+                        "the V2 header verifier is not selected by a parsable `AWS ak:sig` Authorization header")
     # a present Signature parameter never yields None
     for w in [w for w in flow.return_writes(x) if w["kind"] == "None"]:
-        for bi, t in x.calls():
-            if callee_def(t).endswith("OrderedQs::has") and paths.str_args(x, t) == ["Signature"]:
-                tr = flow.outcomes_of_call(x, bi).get("true")
-                chk.verdict(not (tr and w["bi"] in flow.reach_from_edges(x, tr)), "R1", "Signature-present-yields-verdict", x.loc(bi),
-                            "v2_check can decline although the `Signature` parameter is present", nontrivial=False)
+        chk.verdict(not (sig_edges and w["bi"] in flow.reach_from_edges(x, sig_edges)), "R1", "Signature-present-yields-verdict", x.loc(w["bi"]),
+                    "v2_check can decline although the `Signature` parameter is present", nontrivial=False)
 
 
 def rule_r2(chk, db, v):
@@ -80,7 +74,7 @@ def rule_r2(chk, db, v):
     else:
         full = any(callee_def(t) == "core::str::<impl str>::parse" for _, t in b.calls())
         nonneg = False
-        for x in db.nested(b, include_self=False):
+        for x in db.nested(b, include_self=True):
             for bi, si, st in x.stmts():
                 rv = st["rv"]
                 if rv["k"] == "bin" and rv["op"] in ("Ge", "Gt"):
@@ -91,20 +85,23 @@ def rule_r2(chk, db, v):
 
 
 def rule_r3(chk, db, v):
-    """header auth needs a date"""
+    """header auth needs a date: acceptance passes a "present" outcome of the Date or of the x-amz-date lookup (whatever the form of the test)"""
     body = v.body
-    ok = False
+    present = set()
     at = None
     for bi, t in body.calls():
         d = callee_def(t)
         if d in ("core::option::Option::<T>::is_none", "core::option::Option::<T>::is_some"):
             sl = flow.backward(body, t["args"][0], at=bi)
             lits = flow.slice_literals(db, body, sl)
-            if {"date", "x-amz-date"} <= lits:
+            if lits & {"date", "x-amz-date"} and any(short(callee_def(c)) == "get_unique" for _, c, _ in sl.calls):
                 o = flow.outcomes_of_call(body, bi)
-                present = o.get("false") if d.endswith("is_none") else o.get("true")
-                ok = bool(present) and flow.must_pass(body, v.acc, present)
+                present |= o.get("false") if d.endswith("is_none") else o.get("true")
                 at = bi
+        elif short(d) == "get_unique" and paths.str_args(body, t) in (["date"], ["x-amz-date"]):
+            present |= flow.outcomes_of_call(body, bi).get("Some")
+            at = bi if at is None else at
+    ok = bool(present) and flow.must_pass(body, v.acc, present)
     chk.verdict(ok, "R3", "date-required", body.loc(at) if at is not None else body.loc(), "a V2 header-signed request without Date and x-amz-date can be accepted")
 
 
